@@ -89,7 +89,7 @@ Qed.
 
 (* the generic step: i empty, a neighbour j of i in the connected set g, a square t of g on one edge *)
 Lemma touches_via g t j i : cset g -> N.testbit g t = true -> N.testbit g j = true -> (nb c j i \/ nb c i j) -> touches s B i t.
-Proof. intros Hc Ht Hj Hn. right. exists j. split; [apply Hc; assumption|exact Hn]. Qed.
+Proof. intros Hc Ht Hj Hn. right. right. exists j. split; [apply Hc; assumption|exact Hn]. Qed.
 
 Lemma edge_L g : cset g -> negb (N.land g (cL c) =? 0) = true -> P (N.land (N.land (N.shiftr g 1) (t_empty c p)) (cR c)).
 Proof.
